@@ -77,6 +77,26 @@ PACMAN_TUNNEL_MAZE = [
 ]
 
 
+# taller than wide (like the shipped 31 x 28 maze), wrap-around tunnel in the middle row
+PACMAN_TALL_MAZE = [
+    "XXXXXXXXXXX",
+    "XS   T   SX",
+    "X XX X XX X",
+    "XO  G G  OX",
+    "X XX X XX X",
+    "X    T    X",
+    "X XX X XX X",
+    "     P     ",
+    "X XX X XX X",
+    "X    T    X",
+    "X XX X XX X",
+    "XO  G G  OX",
+    "X XX X XX X",
+    "XS   T   SX",
+    "XXXXXXXXXXX",
+]
+
+
 def _E():
     import jumanji.environments as E
 
@@ -483,6 +503,10 @@ def _menus():
         add("PacMan", f"tunnel{t}", lambda t=t, time_limit="dflt", **k: E.PacMan(
             generator=AsciiGenerator(PACMAN_TUNNEL_MAZE), time_limit=t if time_limit == "dflt" else time_limit),
             time_limit=t, maze="tunnel")
+    for t in (90,):
+        add("PacMan", f"tall{t}", lambda t=t, time_limit="dflt", **k: E.PacMan(
+            generator=AsciiGenerator(PACMAN_TALL_MAZE), time_limit=t if time_limit == "dflt" else time_limit),
+            time_limit=t, maze="tall")
     from jumanji.environments.routing.robot_warehouse.generator import RandomGenerator as RWGen
     for sr, sc, ch, a, sens, q, t in ((1, 3, 2, 1, 1, 1, 7), (1, 3, 3, 2, 1, 2, 500), (1, 3, 3, 3, 2, 2, 3),
                                       (2, 3, 8, 4, 1, 8, 500), (1, 3, 3, 2, 1, 2, 2), (2, 3, 2, 2, 2, 2, 1),
@@ -573,7 +597,7 @@ QUICK = {
     "Cleaner": ["r3c7a1t7", "r5c11a2tNone", "r3c3a2tNone", "r4c6a2t12p0", "r13c13a3tNone"], "Connector": ["g5a2t7rw", "g6a3t50rw", "g5a2t12rwc20s0", "g12a48t50rw"],
     "CVRP": ["n5s", "n20d", "zb6d", "n130d"], "LevelBasedForaging": ["g6a2f2v2l2cVNp0t100", "g8a3f3v3l3nGRp5t100", "g7a2f3v7l2nGRp0t40", "g5a3f1v5l2nVNp0t40", "g8a3f3v5l2nVNp0t40"],
     "Maze": ["r4c7tNone", "r5c5t7", "r13c13tNone"], "MMST": ["n12e18a2k3t7", "n12e18a3k2t30"], "MultiCVRP": ["c6v2d", "c6v3s"],
-    "PacMan": ["t40", "small200", "tunnel120"], "RobotWarehouse": ["s1x3h3a2r1q2t500", "s1x3h2a1r1q1t7"],
+    "PacMan": ["t40", "small200", "tunnel120", "tall90"], "RobotWarehouse": ["s1x3h3a2r1q2t500", "s1x3h2a1r1q1t7"],
     "Snake": ["r6c4t7", "r3c3t4000", "r12c12t20000deep", "r6c6t4000deep", "r2c3t40", "r4c4t4000"], "Sokoban": ["simplet120", "randomt120", "simplet10", "opent60"], "TSP": ["n5d", "n3d", "lat6s", "n130d"],
 }
 
